@@ -424,15 +424,18 @@ func Verif_C38_step() {
 }
 
 // Rewards: the owner (5000) and one more delegator whose stake goes through concrete levels (1000, then
-// topped up, reduced or unchanged), one or two reward epochs with symbolic amounts, everybody claims (or
+// topped up, reduced or unchanged), two or three reward epochs with symbolic amounts, everybody claims (or
 // re-delegates) at the end: what is paid out never exceeds what was received, whatever the rounding.
 func Verif_C38_rewards() {
 	st := verifC38NewWith(big.NewInt(5000))
 	verifAssert(st.call(verifC38User, "delegate", big.NewInt(1000)) == vmcommon.Ok, "user delegated")
-	r1 := verifC38Amount("rewards1")
-	verifAssert(st.call(verifC38EndEpoch, "updateRewards", r1) == vmcommon.Ok, "rewards recorded")
-	st.rewards.Add(st.rewards, r1)
-	st.hook.epoch++
+	// two reward epochs: the delegator is entitled from the epoch after the one he joined in
+	for _, name := range []string{"rewards1", "rewards2"} {
+		r := verifC38Amount(name)
+		verifAssert(st.call(verifC38EndEpoch, "updateRewards", r) == vmcommon.Ok, "rewards recorded")
+		st.rewards.Add(st.rewards, r)
+		st.hook.epoch++
+	}
 	switch verifChoice("middle", 4) {
 	case 0:
 		verifAssert(st.call(verifC38User, "delegate", big.NewInt(4000)) == vmcommon.Ok, "user topped up")
@@ -441,10 +444,10 @@ func Verif_C38_rewards() {
 	case 2:
 		st.call(verifC38Owner, "delegate", big.NewInt(3000))
 	}
-	if verifBool("secondRewardEpoch") {
-		r2 := verifC38Amount("rewards2")
-		verifAssert(st.call(verifC38EndEpoch, "updateRewards", r2) == vmcommon.Ok, "rewards recorded")
-		st.rewards.Add(st.rewards, r2)
+	if verifBool("thirdRewardEpoch") {
+		r3 := verifC38Amount("rewards3")
+		verifAssert(st.call(verifC38EndEpoch, "updateRewards", r3) == vmcommon.Ok, "rewards recorded")
+		st.rewards.Add(st.rewards, r3)
 		st.hook.epoch++
 	}
 	for _, u := range st.users {
